@@ -293,6 +293,8 @@ pub fn gen_attrset(w: &World, recv: Option<&Spec>, d: &mut D, mode: Mode, st: &m
             a.nodes = None;
             st.mistakes.push("attribute-absent");
         } else {
+            // an attribute without items may be written `#[name()]` or bare `#[name]`
+            a.bare = nodes.is_empty() && d.bool();
             a.nodes = Some(nodes);
         }
     }
